@@ -561,24 +561,41 @@ class Recorder(object):
         self.log.append((notification.name, id(notification.object)))
 
 
-class Watcher(object):
-    """a second observer, registered per object for that object's own `*.Changed`; the only one an observer-scoped
-    hold (`ohold`) applies to: everybody else (the parents' callbacks, the Recorder) must be served as usual"""
+class _Everything(object):
+    def __contains__(self, x):
+        return True
 
-    def __init__(self, tree):
+
+class Watcher(object):
+    """a second observer - registered per object for that object's own `*.Changed`, or (scope "global") for every
+    notification of the font, ahead of everybody else - and the only one an observer-scoped hold (`ohold`) applies
+    to: all the others (the parents' callbacks, the Recorder) must be served as usual"""
+
+    def __init__(self, tree, scope, font):
         self.log = []
-        self.watched = set()
+        self.scope = scope
         self.tree = tree
-        self.sync()
+        if scope == "global":
+            self.watched = _Everything()
+            font.dispatcher.addObserver(self, "cb", None, None)
+        else:
+            self.watched = set()
+            self.sync()
 
     def sync(self):
+        if self.scope == "global":
+            return
         for (obj, kind, parent) in self.tree.nodes:
             if id(obj) not in self.watched:
                 self.watched.add(id(obj))
                 obj.addObserver(self, "cb", obj.changeNotificationName)
 
+    def snapshot(self):
+        return self.watched if self.scope == "global" else set(self.watched)
+
     def cb(self, notification):
-        self.log.append((notification.name, id(notification.object)))
+        if notification.name.endswith(".Changed"):
+            self.log.append((notification.name, id(notification.object)))
 
 
 # ---------------------------------------------------------------------------------------
@@ -608,7 +625,7 @@ def gen_case(rng, maxops):
     origin = rng.choice(["disk", "disk", "memory", "saved"])
     ops = []
     held = []
-    watcher = rng.random() < 0.5
+    watcher = rng.choice([None, None, "specific", "global"])
     oheld = False
     for _ in range(rng.randint(3, maxops)):
         r = rng.random()
@@ -687,7 +704,7 @@ def _fingerprint(obj, kind):
             return (obj.identifier, tuple((p.x, p.y, p.segmentType, p.smooth, p.name, p.identifier) for p in obj))
         if kind == "component":
             return (obj.baseGlyph, tuple(obj.transformation), obj.identifier)
-        if kind in ("anchor", "guideline", "image"):
+        if kind in ("anchor", "guideline", "image", "lib"):
             return tuple(sorted((k, repr(v)) for k, v in dict(obj).items()))
     except Exception:
         return None
@@ -695,7 +712,7 @@ def _fingerprint(obj, kind):
 
 
 def _fingerprints(tree):
-    return {j: _fingerprint(o, k) for j, (o, k, p) in enumerate(tree.nodes) if k in ("contour", "component", "anchor", "guideline", "image")}
+    return {j: _fingerprint(o, k) for j, (o, k, p) in enumerate(tree.nodes) if k in ("contour", "component", "anchor", "guideline", "image", "lib")}
 
 
 def _dirty_set(tree):
@@ -711,8 +728,12 @@ def run(case, want_lines):
     try:
         font = _build(case, tmpd)
         tree = Tree(font)
+        wscope = case.get("watcher")
+        # (the global watcher registers first: the centre serves it before the Recorder)
+        watcher = Watcher(tree, "global", font) if wscope == "global" else None
         rec = Recorder(font)
-        watcher = Watcher(tree) if case.get("watcher") else None
+        if wscope and wscope != "global":
+            watcher = Watcher(tree, "specific", font)
         oheld_at = None
         owed_held = []
         keep = [tree, rec, watcher]
@@ -735,7 +756,7 @@ def run(case, want_lines):
             before_order = copy.deepcopy(font.lib.get("public.glyphOrder"))
             mark = len(rec.log)
             wlen = len(watcher.log) if watcher is not None else 0
-            wbefore = set(watcher.watched) if watcher is not None else set()
+            wbefore = watcher.snapshot() if watcher is not None else set()
             nnodes = len(tree.nodes)
             line = [Atom("noop")]
             if i is None:
@@ -828,11 +849,13 @@ def run(case, want_lines):
                 if kind == "glyph" and name in VIA_LIB and libchild is not None:
                     cand.add(libchild)          # stored in the glyph lib: the lib is the object that changes
                 elif kind == "glyph" and name in ALSO_LIB and libchild is not None:
-                    cand.add(libchild)
-                    cand.add(i)
+                    cand.add(i)                 # (the lib joins through its fingerprint when the vertical origin changes)
                 elif not (kind == "font" and name == "glyphOrder="):
                     cand.add(i)
                 roots = [j for j in cand if not any(j in tree.path(c)[1:] for c in cand)]
+                if i in cand and i not in roots:
+                    # the named object changes itself, whatever it also changes below it (a held child must not hide it)
+                    roots.append(i)
                 tl = [[Atom("touch"), j] for j in sorted(roots)]
                 gone = sorted(j for j in before_attached if not tree.attached(j))
                 inner = [Atom("seq")] + tl + [[Atom("drop"), j] for j in gone]
